@@ -72,6 +72,9 @@ def instrument(rec):
             nested = rec.depth > 0
             pre = None if nested else snap_account(self)
             args = make_args(self, *a, **k)
+            if name == "_on_bar" and not nested and type(Environment.get_instance().broker).__name__ == "SignalBroker" \
+                    and not (rec.inputs and rec.inputs[-1]["k"] == "R" and rec.inputs[-1].get("dt") == args["dt"]):
+                rec.inputs.append({"k": "R", "today": args["today"], "dt": args["dt"]})      # signal mode has no SimulationBroker.on_bar to mark the bar
             if name == "_on_settlement" and not (rec.inputs and rec.inputs[-1]["k"] == "S" and rec.inputs[-1]["today"] == args["today"]):
                 rec.inputs.append({"k": "S", "today": args["today"]})
             elif name == "finance_repay" and not nested:
@@ -343,6 +346,17 @@ def instrument(rec):
                 break
         return orig_bsub(self, order)
     SimulationBroker.submit_order = bsub_w
+    from rqalpha.mod.rqalpha_mod_sys_simulation.signal_broker import SignalBroker as _SB
+    orig_ssub = _SB.submit_order
+    saved[(_SB, "submit_order")] = orig_ssub
+
+    def ssub_w(self, order):
+        for item in reversed(rec.inputs):
+            if item["k"] == "O" and item["order"]["id"] == order.order_id:
+                item["submitted"] = True
+                break
+        return orig_ssub(self, order)
+    _SB.submit_order = ssub_w
     try:
         yield rec
     finally:
